@@ -53,7 +53,9 @@ def kani_key():
     """everything a Kani result depends on: /repo sources + the hook"""
     h = hashlib.sha256(b'kani')
     _repo_hash(h)
-    _hash_dir(h, os.path.join(VERIF, 'hook'), ('.rs',))
+    # only the hook files that are compiled under cfg(kani) (the native-only obligation files are not)
+    for f in ('verif.rs', 'pure.rs', 'state.rs', 'rawh.rs', 'harness_list.rs', 'serde_verif.rs'):
+        h.update(open(os.path.join(VERIF, 'hook', f), 'rb').read())
     return h.hexdigest()[:24]
 
 
